@@ -20,6 +20,49 @@ func init() {
 
 // twoWayExtreme: g(a, b) returns the larger (want > 0) or smaller (want < 0) of its two arguments, decided in
 // the three order worlds.
+// worlds of a float comparison in which one side is NaN
+const (
+	nanAcc  = 2 // the accumulator (first argument) is NaN
+	nanElem = 3 // the element (second argument) is NaN
+)
+
+// nanWorldAtom answers a condition atom in a world where a (nanAcc) or b (nanElem) is NaN: ordered comparisons
+// and == that involve the NaN side are false, != is true, math.IsNaN answers per side, x != x / x == x too.
+func nanWorldAtom(v ssa.Value, a, b ssa.Value, world int, pe *pathExec) (bool, bool) {
+	isNaN := func(x ssa.Value) (bool, bool) {
+		x = pe.resolve(x)
+		switch x {
+		case a:
+			return world == nanAcc, true
+		case b:
+			return world == nanElem, true
+		}
+		return false, false
+	}
+	switch t := v.(type) {
+	case *ssa.Call:
+		if o := calleeObj(t); isFuncNamed(o, "math", "", "IsNaN") && len(t.Call.Args) == 1 {
+			return isNaN(t.Call.Args[0])
+		}
+	case *ssa.BinOp:
+		nx, okx := isNaN(t.X)
+		ny, oky := isNaN(t.Y)
+		if !okx || !oky {
+			return false, false
+		}
+		if !nx && !ny {
+			return false, false // two ordinary values: not decided in this world
+		}
+		switch t.Op {
+		case token.LSS, token.LEQ, token.GTR, token.GEQ, token.EQL:
+			return false, true
+		case token.NEQ:
+			return true, true
+		}
+	}
+	return false, false
+}
+
 func twoWayExtreme(g *ssa.Function, want int) (bool, string) {
 	if g == nil {
 		return false, "no static callee"
@@ -34,10 +77,17 @@ func twoWayExtreme(g *ssa.Function, want int) (bool, string) {
 		return false, "not a two-argument module function"
 	}
 	a, b := ssa.Value(g.Params[0]), ssa.Value(g.Params[1])
-	for _, rel := range []int{-1, 0, 1} { // sign of a - b
+	rels := []int{-1, 0, 1}
+	if isFloatType(g.Params[0].Type()) {
+		rels = append(rels, nanAcc, nanElem) // a is NaN / b is NaN: the result must be NaN either way
+	}
+	for _, rel := range rels { // sign of a - b
 		pe := &pathExec{fn: g}
 		pe.oracle = func(pe *pathExec, cond ssa.Value) (bool, bool) {
 			return pe.evalBool(cond, func(v ssa.Value) (bool, bool) {
+				if rel == nanAcc || rel == nanElem {
+					return nanWorldAtom(v, a, b, rel, pe)
+				}
 				bo, ok := v.(*ssa.BinOp)
 				if !ok {
 					return false, false
@@ -77,6 +127,12 @@ func twoWayExtreme(g *ssa.Function, want int) (bool, string) {
 			return false, g.Name() + " does not return one of its arguments"
 		}
 		if rel == 0 {
+			continue
+		}
+		if rel == nanAcc || rel == nanElem {
+			if (rel == nanAcc) != (res == a) {
+				return false, g.Name() + " drops a NaN argument (every comparison with NaN is false): the result then depends on the order of the values"
+			}
 			continue
 		}
 		wantA := rel*want > 0 // a is the extreme we want
@@ -247,6 +303,25 @@ func checkFold(fn *ssa.Function, values ssa.Value, ekey string, bind map[*ssa.Pa
 				if isElem(v) {
 					return elemTrue, true
 				}
+				if (rel == nanAcc || rel == nanElem) && len(accs) == 1 {
+					var elemV ssa.Value
+					switch t := v.(type) {
+					case *ssa.BinOp:
+						for _, o := range []ssa.Value{pe.resolve(t.X), pe.resolve(t.Y)} {
+							if isElem(o) {
+								elemV = o
+							}
+						}
+					case *ssa.Call:
+						if len(t.Call.Args) == 1 && isElem(pe.resolve(t.Call.Args[0])) {
+							elemV = pe.resolve(t.Call.Args[0])
+						}
+					}
+					if elemV == nil {
+						elemV = ssa.Value(nil)
+					}
+					return nanWorldAtom(v, ssa.Value(accs[0]), elemV, rel, pe)
+				}
 				if bo, ok := v.(*ssa.BinOp); ok && len(accs) == 1 {
 					x, y := pe.resolve(bo.X), pe.resolve(bo.Y)
 					r := rel // sign of acc - elem
@@ -411,6 +486,22 @@ func checkFold(fn *ssa.Function, values ssa.Value, ekey string, bind map[*ssa.Pa
 			wantAcc := rel*want > 0
 			if wantAcc != isAcc {
 				problems = append(problems, fmt.Sprintf("with accumulator %s element the iteration keeps the %s", map[int]string{-1: "<", 1: ">"}[rel], map[bool]string{true: "accumulator", false: "element"}[isAcc]))
+			}
+		}
+		// float elements: a NaN anywhere in the group must decide the result, wherever it stands. Every
+		// comparison with NaN is false, so a plain `if v > acc { acc = v }` keeps a NaN only when it comes first.
+		if und == "" && len(problems) == 0 && isFloatType(acc.Type()) {
+			for _, w := range []int{nanAcc, nanElem} {
+				nv, why := step(false, w)
+				if nv == nil {
+					und = "NaN world: " + why
+					break
+				}
+				isAcc, isEl := nv[0] == ssa.Value(acc), isElem(nv[0])
+				if w == nanAcc && !isAcc || w == nanElem && !isEl {
+					problems = append(problems, "a NaN value is dropped by the comparison (every comparison with NaN is false): "+ekey+" of a group then depends on where the NaN stands among its rows - NaN when it is first, a number otherwise")
+					break
+				}
 			}
 		}
 		if ret.Results[0] != ssa.Value(acc) {
